@@ -1,5 +1,6 @@
 import TaurexModel.Proto
 import TaurexModel.Temperature
+import TaurexModel.Section
 
 namespace Taurex.Ops.C12
 open Taurex.Proto Taurex.NpInterp Taurex.Temperature
@@ -98,9 +99,22 @@ def guillotOp (args : List String) : Option String :=
     let q : GuillotParams Float := ⟨tirr, kir, kv1, kv2, al, tint⟩
     pure (fOutcome (fList fF) (guillot q g pr e1 e2))) args
 
+/-- `c12.section defaults sections`: `defaults` = the constructor's keywords `(name, token)`, `sections` = the sections of
+    one session, each a list of `(name, token)`; values are opaque tokens → per section `0` (KeyError) or
+    `1 <tokens in constructor order>` -/
+def sectionOp (args : List String) : Option String :=
+  let kv : P (String × String) := do
+    let k ← tok
+    let v ← tok
+    pure (k, v)
+  run (do
+    let d ← listOf kv
+    let secs ← listOf (listOf kv)
+    pure (fList (fOpt (fun r => fList (fun (p : String × String) => p.2) r)) (Taurex.Section.session d secs))) args
+
 def ops : List Op :=
   [("c12.interp", interpOp), ("c12.linspace", linspaceOp), ("c12.movavg", movavgOp),
    ("c12.oddwindow", oddWindowOp), ("c12.iso", isoOp), ("c12.npoint", npointOp),
-   ("c12.rodgers", rodgersOp), ("c12.tarray", tarrayOp), ("c12.guillot", guillotOp)]
+   ("c12.rodgers", rodgersOp), ("c12.tarray", tarrayOp), ("c12.guillot", guillotOp), ("c12.section", sectionOp)]
 
 end Taurex.Ops.C12
